@@ -447,8 +447,26 @@ Definition enc_mtab (d : mtab) : V :=
   VL (map (fun p => VL [VZ (fst p); VZ (snd p)]) d).
 Definition enc_tbl (t : tbl) : V :=
   VL (map (fun p => VL [VZ (fst p); enc_mtab (snd p)]) t).
+Definition enc_fent (p : list Z * (Z * Z)) : V :=
+  VL [VS (fst p); VZ (fst (snd p)); VZ (snd (snd p))].
+
+Fixpoint ftab_starts (pre t : ftab) : option ftab :=
+  match pre, t with
+  | [], _ => Some t
+  | (n, (r, c)) :: pre', (n', (r', c')) :: t' =>
+      if lz_eqb n n' && (r =? r') && (c =? c') then ftab_starts pre' t'
+      else None
+  | _ :: _, [] => None
+  end.
+
+(* the filters view; the seven built-in entries, when they are all still in
+   place and unchanged, are abbreviated to one VN (the harness abbreviates
+   the implementation's view in the same way) *)
 Definition enc_ftab (t : ftab) : V :=
-  VL (map (fun p => VL [VS (fst p); VZ (fst (snd p)); VZ (snd (snd p))]) t).
+  match ftab_starts init_filters t with
+  | Some rest => VL (VN :: map enc_fent rest)
+  | None => VL (map enc_fent t)
+  end.
 
 (* order: filters before after defaults routes regular_routes states errors *)
 Definition enc_views (a : app) : V :=
